@@ -11,11 +11,13 @@ func init() {
 		// Because there is overlap between operators (like "*" and "**") we have to
 		// ensure that some ordering is forced.
 		if op != "**" && op != "is not" && op != "//" && op != "not in" && op != ">=" && op != "<=" {
-			ops = append(ops, regexp.QuoteMeta(op))
+			// The words of an operator like "starts with" may be separated by
+			// any amount of whitespace, as everywhere else inside delimiters.
+			ops = append(ops, strings.Replace(regexp.QuoteMeta(op), " ", `[ \t\r\n]+`, -1))
 		}
 	}
 	// Additionally, we add the unary "not" operator since it has no binary counterpart.
-	operatorMatcher = regexp.MustCompile(`^(not in|not|\*\*|is not|//|>=|<=|` + strings.Join(ops, "|") + ")")
+	operatorMatcher = regexp.MustCompile(`^(not[ \t\r\n]+in|not|\*\*|is[ \t\r\n]+not|//|>=|<=|` + strings.Join(ops, "|") + ")")
 }
 
 var operatorMatcher *regexp.Regexp
